@@ -9,7 +9,8 @@ EXPLANATION = ("TermFlow formulas: (O6) refusal is exact — every edge of the b
                "built from a capacity can hold round_up(capacity, MIN_ALIGN) and starts empty; (O2) chunk_capacity() is finger - data, the very term the fast path compares; "
                "(O3) the slow path's first candidate is max(2 * (size(current layout) - FOOTER_SIZE), size(request), default), later candidates only halve, and the chunk obtained is at "
                "least as large as its candidate; (O4) RawVec's amortized size is max(2*cap, used+extra) with a checked sum; (R5) with_capacity_in records exactly the requested capacity "
-               "and push reserves only under len == cap.")
+               "and push reserves only under len == cap."
+               ' (O5) growth strategy constant per entry point; (O7) the chunk-acquiring slow path is only called after the bumping function refused the same layout; (O8) every growing primitive reserves exactly the number of elements it adds.')
 RULE = "rule instance = (rule, function/site); distinct by (rule, function, site)"
 
 
